@@ -75,6 +75,11 @@ def r2(ctx):
     if len(cc) == 1:
         arr = core(sym(clo, cc[0].args[0]))
         good = match(arr, ('agg', 'array', '', (('field', ('field', ('arg', 2, ANY), 0), 1), ('field', ('field', ('arg', 2, ANY), 1), 1))))
+        if not good and arr[0] == 'agg' and arr[1] == 'array' and len(arr[3]) == 2:
+            # index form over the positions: [bytes[i], bytes[i + 1]]
+            from analysis import poly as _poly
+            a0, a1 = core(arr[3][0]), core(arr[3][1])
+            good = a0[0] == 'index' and a1[0] == 'index' and nosite(a0[1]) == nosite(a1[1]) and _poly.poly(a1[2]) == _poly._add(_poly.poly(a0[2]), {(): 1}, 1)
         if not good:
             # `bytes.windows(2).enumerate()`: the window IS the (left, right) pair
             good = match(arr, ('field', ('arg', 2, ANY), 1)) and has(core(ch), Call('slice::windows', ANY, Const(2)))
@@ -227,3 +232,13 @@ def r6(ctx):
     ctx.require(ok, tr, 'dense-ids', 'every iteration that selected a pair records it under the loop index before the next iteration',
                 'an iteration of the merge loop can move on to the next index without recording a merge (line %d): the saved ids have holes, '
                 'and BPETokenizer::new lays the table out densely, so every later id decodes to the bytes of another merge' % ins[0].span['line'], ins[0].span)
+
+
+@rule('C02', 'R-C02-7', 'prerequisite (the merge loop loses no token)',
+      'the neighbour searches, stamps and re-pushes of the merge loop are well formed (R-C03-2, R-C03-3, R-C03-5, R-C03-7 '
+      're-evaluated): a candidate built from the wrong neighbour (e.g. a token with itself) clears live bytes and the text is no '
+      'longer recovered')
+def r7(ctx):
+    from rules import c03
+    for fn in (c03.r2, c03.r3, c03.r5, c03.r7):
+        fn(ctx)
